@@ -278,6 +278,18 @@ class QueryCreator(BaseQueryCreator):
         return prepareQuery(self.query, initNs=use_ns)
 
     @staticmethod
+    def _literal(value):
+        """
+        Returns the text of a search value as the content of a quoted SPARQL string;
+        backslashes, double quotes and line breaks have to be escaped there.
+
+        :param value: search value.
+        :return: string
+        """
+        text = str(value).replace("\\", "\\\\").replace("\"", "\\\"")
+        return text.replace("\n", "\\n").replace("\r", "\\r").replace("\t", "\\t")
+
+    @staticmethod
     def _match_attribute(var, attr_name, predicate, value):
         """
         Returns the query lines matching the attribute of an object to a search value.
@@ -291,6 +303,7 @@ class QueryCreator(BaseQueryCreator):
         :param value: search value.
         :return: string
         """
+        value = QueryCreator._literal(value)
         if attr_name == "id":
             return "FILTER(str(?{0}) = \"{1}{2}\") .\n".format(var, str(odmlns), value)
 
@@ -352,7 +365,8 @@ class QueryCreator(BaseQueryCreator):
                             self.query += "?p odml:hasValue ?v .\n?v rdf:type rdf:Seq .\n"
                             for idx, val in enumerate(values):
                                 self.query += "?v ?v_m{0} ?v_{0} . " \
-                                              "FILTER(str(?v_{0}) = \"{1}\") .\n".format(idx, val)
+                                              "FILTER(str(?v_{0}) = \"{1}\") .\n".format(
+                                                  idx, self._literal(val))
                     else:
                         attr = Property.rdf_map(i[0])
                         if attr:
